@@ -1,7 +1,8 @@
 #!/venv/bin/python
 """Regenerate Gen_CIR.v from the CURRENT source of exo/backend/LoopIR_compiler.py (EXO_REPO, default /repo).
 Exits non-zero, naming the construct and line, when the source leaves the translator's grammar; the stale
-Gen_CIR.v is then removed so that nothing can be proved about an outdated translation."""
+Gen_CIR.v is then removed so that nothing can be proved about an outdated translation.  An unchanged translation
+keeps the file (and its time stamp) so that `make` does not rebuild the proofs."""
 import os
 import subprocess
 import sys
@@ -9,7 +10,15 @@ import sys
 here = os.path.dirname(os.path.abspath(__file__))
 tr = os.path.join(here, "..", "..", "translator", "py2coq_cir.py")
 out = os.path.join(here, "Gen_CIR.v")
-rc = subprocess.call([sys.executable, tr, "--repo", os.environ.get("EXO_REPO", "/repo"), "-o", out])
-if rc != 0 and os.path.exists(out):
-    os.remove(out)
-sys.exit(rc)
+tmp = out + ".new"
+rc = subprocess.call([sys.executable, tr, "--repo", os.environ.get("EXO_REPO", "/repo"), "-o", tmp])
+if rc != 0:
+    for f in (out, tmp):
+        if os.path.exists(f):
+            os.remove(f)
+    sys.exit(rc)
+if os.path.exists(out) and open(out).read() == open(tmp).read():
+    os.remove(tmp)
+else:
+    os.replace(tmp, out)
+sys.exit(0)
